@@ -1,7 +1,7 @@
 """C10 — timeouts fire after, and only after, the configured silence."""
 import hc_streams
 from props import _hc
-from hc_oracles import timeout_oracle, ep_crash_oracle, server_disconnect_oracle
+from hc_oracles import timeout_oracle, ep_crash_oracle, server_disconnect_oracle, pending_budget_oracle, keepalive_oracle
 
 PROP = "C10"
 COQ_FILE = "props/C10.v"
@@ -22,4 +22,4 @@ def streams(seed, tier):
 
 
 def oracle(name, ops, out):
-    return _hc.run_oracles({"*": [ep_crash_oracle, timeout_oracle, server_disconnect_oracle]}, name, ops, out)
+    return _hc.run_oracles({"*": [ep_crash_oracle, timeout_oracle, server_disconnect_oracle, pending_budget_oracle], "timers": [keepalive_oracle]}, name, ops, out)
